@@ -378,6 +378,54 @@ func shapeFamilies() []shapeFamily {
 			}),
 		)
 	}
+	// handlers that try a typed reader / Decode function on every member and ignore its failure
+	// (nullable columns, probing): a failing call sees the rest of the document and must not pay
+	// for it
+	{
+		var i64 int64
+		var u64 uint64
+		var i32 int32
+		var u32 uint32
+		var in int
+		var un uint
+		var fl float64
+		var bo bool
+		var st string
+		probes := map[string]func(d []byte){
+			"ReadUint64":    func(d []byte) { rjson.ReadUint64(d) },
+			"ReadInt64":     func(d []byte) { rjson.ReadInt64(d) },
+			"ReadInt32":     func(d []byte) { rjson.ReadInt32(d) },
+			"ReadUint32":    func(d []byte) { rjson.ReadUint32(d) },
+			"ReadFloat64":   func(d []byte) { rjson.ReadFloat64(d) },
+			"ReadBool":      func(d []byte) { rjson.ReadBool(d) },
+			"ReadNull":      func(d []byte) { rjson.ReadNull(d) },
+			"ReadString":    func(d []byte) { rjson.ReadString(d, nil) },
+			"DecodeInt64":   func(d []byte) { rjson.DecodeInt64(d, &i64) },
+			"DecodeUint64":  func(d []byte) { rjson.DecodeUint64(d, &u64) },
+			"DecodeInt32":   func(d []byte) { rjson.DecodeInt32(d, &i32) },
+			"DecodeUint32":  func(d []byte) { rjson.DecodeUint32(d, &u32) },
+			"DecodeInt":     func(d []byte) { rjson.DecodeInt(d, &in) },
+			"DecodeUint":    func(d []byte) { rjson.DecodeUint(d, &un) },
+			"DecodeFloat64": func(d []byte) { rjson.DecodeFloat64(d, &fl) },
+			"DecodeBool":    func(d []byte) { rjson.DecodeBool(d, &bo) },
+			"DecodeString":  func(d []byte) { rjson.DecodeString(d, &st, nil) },
+			"NextToken":     func(d []byte) { rjson.NextToken(d); rjson.NextTokenType(d) },
+		}
+		var names []string
+		for n := range probes {
+			names = append(names, n)
+		}
+		sortStrings(names)
+		for _, pn := range names {
+			pf := probes[pn]
+			for _, el := range []struct{ name, elem string }{{"nulls", "null"}, {"strings", `"x"`}, {"numbers", "-1.5"}, {"bools", "true"}, {"garbage", "nul"}} {
+				el := el
+				fams = append(fams, one("HandleArrayValues+"+pn+"-probe-per-member/"+el.name, func(n int) string { return bigArray(n*2, el.elem) }, func(b []byte) {
+					rjson.HandleArrayValues(b, rjson.ArrayValueHandlerFunc(func(d []byte) (int, error) { pf(d); return 0, nil }), nil)
+				}))
+			}
+		}
+	}
 	// reused buffer
 	fams = append(fams, shapeFamily{"reused-buffer/deep-then-small", func(n int) measure {
 		var buf rjson.Buffer
